@@ -83,3 +83,9 @@ claim("C11", "post-condition monitor on compute_output_geobox (also reached via 
       "buffer; same CRS + defaults => identical object; utm / utm-n / utm-s => UTM zone set, requested hemisphere, valid area overlapping the raster. ~550 requests quick / 1.2e4 thorough "
       "plus fixed many-pixel curvature probes.",
       _TB + " Rasters above 7e4 corners use every outline corner and every 7th interior one.", "DESIGN.md 5/C11")
+
+claim("C12", "reference-model monitor: brute force over all tiles with shapely footprints (numpy matrices, the oracle's own pyproj transformer) vs GeoboxTiles.tiles / range_from_bbox / grid_intersect",
+      "For each seeded tiling (regular/variable, 7 affine families) and query (polygon or bounding box; inside, straddling each edge, touching, outside, larger; same or other CRS) the reported "
+      "tiles must contain every tile sharing more than a sliver with the query and, for geometries, only tiles not disjoint from it; for each pair of tiled rasters every (destination, source) "
+      "tile pair with more than a sliver of common footprint must be an edge, and rasters separated by > 2 px must give no edge and no exception. ~830 queries + 420 graphs quick.",
+      _TB + " Cross-CRS bounding-box queries are skipped (a 4-point polygon by design).", "DESIGN.md 5/C12")
